@@ -196,3 +196,44 @@ func VH07a_history() {
 	verif.Reach("done")
 	sock.Close()
 }
+
+// VH07b_fanout: every connected respondent is sent each survey, queue space
+// permitting: a stalled respondent (full send queue) loses surveys alone.
+func VH07b_fanout() {
+	lab := "C07/fanout"
+	proto := []string{"surveyor", "xsurveyor"}[verif.Choice("proto", 2)]
+	lab += "/" + proto
+	sock := vp.New(proto)
+	verif.Assert(sock.SetOption(mangos.OptionWriteQLen, 1) == nil, lab+"/set-wqlen")
+	side := vt.Listen(sock, "a")
+	rs := []*vt.Pipe{side.Peer("r0"), side.Peer("r1"), side.Peer("r2")}
+	stalled := verif.Choice("stalled", 4) // 3 = nobody
+	if stalled < 3 {
+		rs[stalled].SendMode = vt.SendBlock
+	}
+	K := verif.Param("K", 3)
+	for k := 0; k < K; k++ {
+		m := mangos.NewMessage(2)
+		m.Body = append(m.Body, byte('a'+k), verif.Byte("payload"))
+		if proto == "xsurveyor" {
+			m.Header = append(m.Header, 0x80, 0, 0, byte(k+1))
+		}
+		verif.Assert(sock.SendMsg(m) == nil, lab+"/survey-send")
+		verif.Quiesce()
+		for i, r := range rs {
+			if i == stalled {
+				continue
+			}
+			verif.Assert(len(r.Sent) == k+1, lab+"/respondent-with-queue-space-missed-a-survey")
+			if len(r.Sent) == k+1 {
+				b := r.Sent[k].B
+				verif.Assert(len(b) == 2 && b[0] == byte('a'+k), lab+"/survey-body-changed")
+			}
+		}
+	}
+	if stalled < 3 {
+		verif.Assert(len(rs[stalled].Sent) == 0, lab+"/stalled-respondent-log")
+	}
+	verif.Reach("fanout-checked")
+	sock.Close()
+}
